@@ -52,7 +52,7 @@ func (dv *dev) noteModel(fnName, tracker string) *noteModel {
 		return m
 	}
 	dv.c.Fn(shortFn(m.fn))
-	paths, err := Enumerate(m.fn, SymConfig{Prog: dv.p, MaxDepth: 4, Collapse: true})
+	paths, err := Enumerate(m.fn, SymConfig{Prog: dv.p, MaxDepth: 4, Collapse: true, MaxVisits: 4}) // an emission written as a loop over a short list of messages unrolls completely
 	if err != nil {
 		m.err = err
 		return m
